@@ -5,6 +5,7 @@ mod common;
 mod exec;
 mod explore;
 mod interpose;
+mod model;
 mod props;
 mod raw;
 mod sched;
